@@ -71,7 +71,16 @@ class Payloads:
         m = self.content(pid, 1, mlen)
         self.by_pid[pid] = (d, m)
         self.by_content[(d, m)] = pid
-        return pid, (Payload(d if dlen else None, m if mlen else None) if (dlen or mlen) else Payload())
+        # the API accepts bytes and bytearray (rsocket.local_typing.ByteTypes); every third payload is handed over as bytearray, and
+        # an absent part sometimes as b'' instead of None
+        dd, mm = (d if dlen else None), (m if mlen else None)
+        if pid % 3 == 0:
+            dd = bytearray(dd) if dd is not None else None
+            mm = bytearray(mm) if mm is not None else None
+        if pid % 4 == 1:
+            dd = dd if dd is not None else b''
+            mm = mm if mm is not None else b''
+        return pid, (Payload(dd, mm) if (dlen or mlen) else Payload())
 
     def make_payload(self, dlen, mlen):
         r = self.make(dlen, mlen)
@@ -886,10 +895,21 @@ class World:
                 pid, p = self.payloads.make(*o['setup_payload'])
                 kw['setup_payload'] = p
                 self.setup_pid = pid
+            def mime_arg(name):
+                # the constructor accepts the MIME type as bytes, as str, or as a WellKnownMimeTypes member (opts['mime_as'])
+                how = o.get('mime_as', 'bytes')
+                if how == 'str':
+                    return name
+                if how == 'enum':
+                    from rsocket.extensions.mimetypes import WellKnownMimeTypes
+                    for mt in WellKnownMimeTypes:
+                        if mt.value.name == name.encode():
+                            return mt
+                return name.encode()
             if o.get('data_mime'):
-                kw['data_encoding'] = o['data_mime'].encode() if isinstance(o['data_mime'], str) else o['data_mime']
+                kw['data_encoding'] = mime_arg(o['data_mime']) if isinstance(o['data_mime'], str) else o['data_mime']
             if o.get('md_mime'):
-                kw['metadata_encoding'] = o['md_mime'].encode() if isinstance(o['md_mime'], str) else o['md_mime']
+                kw['metadata_encoding'] = mime_arg(o['md_mime']) if isinstance(o['md_mime'], str) else o['md_mime']
             if o.get('adapters') and self.adapter_api is None:
                 from . import adapters
                 self.adapter_api = adapters.AdapterApi(self, o['adapters'])
